@@ -159,9 +159,12 @@ Definition handle_cap (ord : list str -> list str) (cfg : cap_cfg) (has_tls : bo
   let n := length params in
   if Nat.leb 2 n && streqb (param1 params) s_DEL then
     let caps := parse_cap (last_or_empty params) in
-    (mkSt (st_tmp st) (fold_left (fun en k => adel k en) (akeys caps) (st_enabled st)) (st_sts st), [])
+    (* delete(enabledCap, cap); delete(tmpCap, cap) *)
+    (mkSt (fold_left (fun t k => adel k t) (akeys caps) (st_tmp st))
+          (fold_left (fun en k => adel k en) (akeys caps) (st_enabled st)) (st_sts st), [])
   else if Nat.leb 2 n && streqb (param1 params) s_NAK then
-    (st, [Write s_CAP [s_END]])
+    (* tmpCap = make(...); CAP END *)
+    (mkSt [] (st_enabled st) (st_sts st), [Write s_CAP [s_END]])
   else
     let possible := possible_caps cfg (recently_failed now (st_sts st)) in
     let is_ls := Nat.leb 3 n && (streqb (param1 params) s_LS || streqb (param1 params) s_NEW) in
